@@ -241,7 +241,8 @@ def write_evidence(run: Run, violations: int, scratch: bool = False):
     with open(tmp, "w") as f:
         json.dump(ev, f, indent=1, sort_keys=False)
     os.replace(tmp, path)
-    validate_evidence(path)
+    if not scratch:
+        validate_evidence(path)  # replays of a single case / mutant runs write scratch evidence that need not meet the floors
     return path
 
 
@@ -368,8 +369,8 @@ def execute(mod, tier: str, seed: int, mutant: Optional[str] = None, workers: Op
                     break
     if run.exhaustive:
         run.cases_done = run.cases_total
-    if hasattr(mod, "finish"):
-        mod.finish(run)
+    if hasattr(mod, "finish") and only_cases is None:
+        mod.finish(run)  # anti-vacuity floors apply to whole runs, not to the replay of one case
     return run
 
 
